@@ -37,7 +37,7 @@ fn cmp(rep: &Report, acc: &mut Acc, part: &'static str, rank: u64, total: u16, p
 
 pub fn run(tier: Tier) -> i32 {
     let rep = Report::new("C12", tier);
-    rep.set_rule("A: DefaultCrc vs a bit-serial reference on: all PDUs of length 0..=2 x label lengths 0/3/6 x 6 (total length, protocol type) pairs; every byte value at every position of messages up to 96 bytes (thorough 4200, plus position windows of a 65545-byte message) over two backgrounds (each of the 256 table entries selected at each position with two register contents); all 65536 total lengths and all 65536 protocol types (thorough: the full 2^32 square of (total length, protocol type) with empty label and PDU); field-order messages. B: a recording CrcCalculator around DefaultCrc injected into the real Encapsulator and Decapsulator for every fragmented transfer of the small regime: arguments, big-endian trailer, receiver recomputation. distinct = part x label length / outcome classes");
+    rep.set_rule("A: DefaultCrc vs a bit-serial reference on: all PDUs of length 0..=2 x label lengths 0/3/6 x 6 (total length, protocol type) pairs; PDUs reaching total lengths 65525..=65535 with each of their last 8 bytes changed in turn; every byte value at every position of messages up to 96 bytes (thorough 4200, plus position windows of a 65545-byte message) over two backgrounds (each of the 256 table entries selected at each position with two register contents); all 65536 total lengths and all 65536 protocol types (thorough: the full 2^32 square of (total length, protocol type) with empty label and PDU); field-order messages. B: a recording CrcCalculator around DefaultCrc injected into the real Encapsulator and Decapsulator for every fragmented transfer of the small regime: arguments, big-endian trailer, receiver recomputation. distinct = part x label length / outcome classes");
     rep.assume("'for every input' cannot be enumerated: the table-index x position sweep covers every table entry at every offset and every field boundary; linearity of the register update is an external mathematical fact");
     part_a(&rep, tier);
     part_b(&rep, tier);
@@ -98,6 +98,27 @@ fn part_a(rep: &Report, tier: Tier) {
         rep.merge(acc);
     });
     rep.part(json!({"part":"A2 every byte value at every position","message_lengths":lens.len(),"max_len":lens.iter().max()}));
+
+    // PDUs at the upper end of the 16-bit total length (both tiers): every PDU length that makes total length reach
+    // 65525..=65535 with label lengths 0/3/6, two contents, and each of the last 8 PDU bytes changed in turn (a
+    // calculator that stops before the end of a maximal message returns the same value for all of them)
+    let top: Vec<(usize, usize)> = [0usize, 3, 6].into_iter().flat_map(|ll| (65525usize..=65535).map(move |tot| (tot - 2 - ll, ll))).collect();
+    top.par_iter().for_each(|&(n, ll)| {
+        let mut acc = Acc::default();
+        let lab = vec![0xA7u8; ll];
+        for bg in [0x00u8, 0x5C] {
+            let mut pd: Vec<u8> = (0..n).map(|i| bg ^ (i % 251) as u8).collect();
+            let t = (n + 2 + ll) as u16;
+            cmp(rep, &mut acc, "top-of-total-length", n as u64, t, 0x0800, &lab, &pd);
+            for k in 1..=8usize.min(n) {
+                pd[n - k] ^= 0xFF;
+                cmp(rep, &mut acc, "top-of-total-length", n as u64, t, 0xFFFF, &lab, &pd);
+                pd[n - k] ^= 0xFF;
+            }
+        }
+        rep.merge(acc);
+    });
+    rep.part(json!({"part":"A2b PDUs at the top of the 16-bit total length","total_lengths":"65525..=65535","label_lengths":[0,3,6],"last_bytes_changed":8}));
 
     if tier.thorough() {
         // windows of positions in a maximal message (65535-byte total length worth of data)
